@@ -541,9 +541,45 @@ def zero_extent_cases(tier):
     return cs
 
 
+def method_view_cases(tier):
+    """the METHOD forms of the layout operations (x.squeeze(), x.reshape(...) ...): thin wrappers, but wrappers with arguments of their own -- also with arguments for which
+    the operation is the identity (nothing to squeeze, reshape to the same shape, flatten of a vector)"""
+    cases = []
+    forms = [("squeeze", (2, 3), lambda a: a.squeeze(), "None"), ("squeeze", (2, 3), lambda a: a.squeeze(0), "0"), ("squeeze", (2, 3), lambda a: a.squeeze((0, 1)), "(0,1)"), ("squeeze", (2, 3), lambda a: a.squeeze(-1), "-1"),
+             ("squeeze", (2, 1, 3), lambda a: a.squeeze(), "None"), ("squeeze", (2, 1, 3), lambda a: a.squeeze(1), "1"), ("squeeze", (2, 1, 3), lambda a: a.squeeze(0), "0"),
+             ("unsqueeze", (2, 3), lambda a: a.unsqueeze(1), "1"), ("reshape", (2, 3), lambda a: a.reshape((2, 3)), "(2,3)"), ("reshape", (2, 3), lambda a: a.reshape((3, -1)), "(3,-1)"),
+             ("flatten", (3,), lambda a: a.flatten(), "default"), ("flatten", (2, 3), lambda a: a.flatten(), "default"), ("flatten", (2, 3, 2), lambda a: a.flatten(1, 1), "(1,1)"),
+             ("transpose", (2, 3), lambda a: a.transpose(0, 1), "(0,1)"), ("transpose", (2, 3), lambda a: a.transpose(1, 1), "(1,1)"), ("movedim", (2, 3), lambda a: a.movedim(0, 0), "(0,0)"),
+             ("movedim", (2, 3), lambda a: a.movedim(0, 1), "(0,1)"), ("unfold", (4,), lambda a: a.unfold(0, 4, 1), "(0,4,1)"), ("unfold", (4,), lambda a: a.unfold(0, 2, 2), "(0,2,2)")]
+    for name, shape, fn, arg in forms:
+        cases.append(VCase("Tensor." + name, {"op": "Tensor." + name, "shape": shape, "args": arg}, [Leaf("a", shape)], lambda T, K, fn=fn: fn(T["a"]), functions=("synapgrad.tensor.Tensor." + name,)))
+    return cases
+
+
+def reuse_cases(tier):
+    """an operation that takes the SAME interior (non-leaf) tensor as two of its operands while that tensor also feeds another operation, the two consumers combined in
+    either order: the interior tensor's gradient is complete (both operand slots and the other consumer) before its own backward runs"""
+    f = F()
+    cases = []
+    twice = {"mul": lambda m: m * m, "add": lambda m: m + m, "sub": lambda m: m - m * 0.5 - m, "matmul": lambda m: f.matmul(m, m),
+             "concat": lambda m: f.sum(f.concat([m, m], 0), 0) if m.ndim == 1 else f.concat([m, m], 0)[:m.shape[0]] * f.concat([m, m], 0)[m.shape[0]:],
+             "stack": lambda m: f.sum(f.stack([m, m], 0), 0)}
+    other = {"exp": lambda m: f.exp(m * 0.5), "mul_const": lambda m: m * 3.0}
+    for tname, t in twice.items():
+        for oname, o in other.items():
+            for first in ("twice", "other"):
+                def build(T, K, t=t, o=o, first=first):
+                    m = T["a"] * 2.0 + 1.0            # an interior tensor
+                    u, v = (t(m), o(m)) if first == "twice" else (o(m), t(m))
+                    return u + v if first == "twice" else u + v * 1.0
+                cases.append(VCase("reuse." + tname, {"op": "reuse." + tname, "shape": (2, 2), "other_consumer": oname, "built_first": first}, [Leaf("a", (2, 2))], build,
+                                   functions=("synapgrad.tensor.Tensor.backward",)))
+    return cases
+
+
 def all_cases(tier="quick"):
     cases = []
-    for g in (binary_cases, matmul_cases, unary_cases, slice_cases, join_cases, reduce_cases, view_cases, zero_extent_cases):
+    for g in (binary_cases, matmul_cases, unary_cases, slice_cases, join_cases, reduce_cases, view_cases, zero_extent_cases, reuse_cases, method_view_cases):
         cases.extend(g(tier))
     cases.extend(layout_variants(cases, tier))
     return cases
